@@ -12,6 +12,7 @@ R5 builder field coverage (every field of the syntax node is read).
 from __future__ import annotations
 
 import ast
+from pathlib import PurePosixPath
 import itertools
 
 from sa.absint import Interp, Obj, Raised
@@ -217,7 +218,8 @@ def run(prog: Program, ctx: Ctx) -> None:  # noqa: PLR0912,PLR0915
     opt = ast.parse("Optional['A.B']", mode="eval").body
     for mod_future, pkg_future in itertools.product((False, True), repeat=2):
         pkg = Obj(prog.cls("_griffe.models.Module"), {"name": "pkg", "path": "pkg", "imports_future_annotations": pkg_future, "members": {}}, label="pkg")
-        m_ = Obj(prog.cls("_griffe.models.Module"), {"name": "sub", "path": "pkg.sub", "imports_future_annotations": mod_future, "members": {}, "package": pkg}, label="sub")
+        m_ = Obj(prog.cls("_griffe.models.Module"), {"name": "sub", "path": "pkg.sub", "imports_future_annotations": mod_future, "members": {}, "package": pkg,
+                                                         "_filepath": PurePosixPath("/s/pkg/sub.py"), "filepath": PurePosixPath("/s/pkg/sub.py")}, label="sub")
         m_.attrs["module"] = m_
         pkg.attrs["module"] = pkg
         pkg.attrs["package"] = pkg
@@ -300,7 +302,8 @@ def string_annotation_scope_rows(prog: Program, ctx: Ctx, rule: str) -> None:
 
     def scope(kind: str, label: str, mod_: Obj | None = None) -> Obj:
         o = Obj(prog.cls(f"_griffe.models.{kind}"), {"name": "K" if kind == "Class" else "sub", "path": "pkg.sub.K" if kind == "Class" else "pkg.sub", "members": {},
-                                                    "imports_future_annotations": False, "resolve": _N(lambda n_: f"{label}.{n_}")}, label=label)
+                                                    "imports_future_annotations": False, "resolve": _N(lambda n_: f"{label}.{n_}"),
+                                                    "_filepath": PurePosixPath("/s/pkg/sub.py"), "filepath": PurePosixPath("/s/pkg/sub.py")}, label=label)
         o.attrs["module"] = mod_ if mod_ is not None else o
         o.attrs["package"] = o.attrs["module"]
         return o
